@@ -936,7 +936,7 @@ impl Property for C13 {
     }
     fn rule(&self, tier: Tier) -> String {
         format!(
-            "Grammar-bounded enumeration of FlatZinc texts: {} instantiations covering every constraint name handled by the front end (arguments from 3 integer variables with range/set domains, 3 Boolean variables, constants, inline and named arrays, set literals); families: single constraint x goal {{satisfy, minimize, maximize}} x flags {{none, -a, -f, -a -f}} (+ --optimisation-strategy linear-unsat-sat), pairs of constraints (quick: stride; thorough: every pair x 3 goals x {none, -a}), declaration variants (in the thorough tier on every instantiation; one and two alias pairs, alias classes of three and four members built as fans / chains / interleaved and followed by further variables, alias with a smaller domain, = constant, Boolean alias/fixed, variable arrays with output_array, parameter arrays, scalar / set / Boolean-array parameters used in constraint arguments, set-domain aliases in both directions, Boolean fixed to false with an alias chain, several reified equalities of one variable joined by a clause, non-output variables), 8 unsatisfiable models (at compile time, at the root, after search) x goals x flags, 4 conflict-rich models x 12 command-line configurations (resolver, minimisation, restart policies, nogood database limits, all six cumulative propagation methods with explanation types / holes / sequence generation / incremental backtracking) x goals, search annotations (int_search/bool_search/seq_search x {} variable x {} value selection names); {} files in total, each run through the real binary. Oracle: an independent evaluator of the builtins brute-forces the declared domains: every printed block is the projection of a solution; satisfy prints one block or the unsatisfiable marker exactly when there is none; with -a the printed SET equals the projection of all solutions and ========== follows; for minimize/maximize the last block before ========== is optimal; non-zero exit, panic or unparsable line is a violation. A case = one (file, flags); non-trivial = the model has some but not all assignments as solutions.",
+            "Grammar-bounded enumeration of FlatZinc texts: {} instantiations covering every constraint name handled by the front end (arguments from 3 integer variables with range/set domains, 3 Boolean variables, constants, inline and named arrays, set literals); families: single constraint x goal {{satisfy, minimize, maximize}} x flags {{none, -a, -f, -a -f}} (+ --optimisation-strategy linear-unsat-sat), pairs of constraints (quick: stride; thorough: every pair x 3 goals x {{none, -a}}), declaration variants (in the thorough tier on every instantiation; one and two alias pairs, alias classes of three and four members built as fans / chains / interleaved and followed by further variables, alias with a smaller domain, = constant, Boolean alias/fixed, variable arrays with output_array, parameter arrays, scalar / set / Boolean-array parameters used in constraint arguments, set-domain aliases in both directions, Boolean fixed to false with an alias chain, several reified equalities of one variable joined by a clause, non-output variables), 8 unsatisfiable models (at compile time, at the root, after search) x goals x flags, 4 conflict-rich models x 12 command-line configurations (resolver, minimisation, restart policies, nogood database limits, all six cumulative propagation methods with explanation types / holes / sequence generation / incremental backtracking) x goals, search annotations (int_search/bool_search/seq_search x {} variable x {} value selection names); {} files in total, each run through the real binary. Oracle: an independent evaluator of the builtins brute-forces the declared domains: every printed block is the projection of a solution; satisfy prints one block or the unsatisfiable marker exactly when there is none; with -a the printed SET equals the projection of all solutions and ========== follows; for minimize/maximize the last block before ========== is optimal; non-zero exit, panic or unparsable line is a violation. A case = one (file, flags); non-trivial = the model has some but not all assignments as solutions.",
             constraint_instances().len(),
             VAR_SEL.len(),
             VAL_SEL.len(),
